@@ -51,6 +51,13 @@ INPLACE_API = {
         'append': 'list mutator', 'insert': 'list mutator', 'pop': 'list mutator', 'sort': 'in-place reorder', '__setitem__': 'axis replacement', '__init__': 'constructor',
         '__setattr__': 'attribute guard'},
 }
+# functions that implement the in-place API (a write inside them is blamed on their non-in-place caller)
+INPLACE_STEPS = {'Axis.sort', 'Axis.__setitem__', 'Axis.set', 'Axis.values.setter', 'Axis.name.setter', 'Axes.append', 'Axes.insert', 'Axes.pop', 'Axes.sort',
+                 'Axes.__setitem__', 'DimArray.fill', 'DimArray._setvalues_ortho', 'DimArray._setvalues_bool', 'DimArray._setvalues_broadcast',
+                 'AbstractDimArray._setitem', 'DimArray.values.setter', 'DimArray.axes.setter', 'AbstractHasAxes._set_dims', 'AbstractHasAxes.dims.setter',
+                 'AbstractHasAxes.labels.setter', 'AbstractHasMetadata.attrs.setter', 'AbstractHasMetadata.attrs.deleter', 'AbstractHasMetadata._metadata',
+                 'GetSetDelAttrMixin.__setattr__', 'GetSetDelAttrMixin.__delattr__', 'Dataset.__setitem__', 'Dataset.__delitem__', 'Dataset._maybe_delete_axes',
+                 'DatasetAxes.__setitem__', 'DimArray.set_axis', 'Dataset.set_axis', 'Dataset.dims.setter', 'Dataset.axes.setter'}
 # parameters that are not operands
 NON_OPERANDS = {'out': 'numpy-style output buffer', 'meta': 'explicit metadata update of _metadata()', 'memo': 'deepcopy protocol', 'cls': 'class'}
 # options that are forced
@@ -156,8 +163,10 @@ def configs(fi):
 
 def rule_no_write(ctx, E):
     ctx.rule('R1', 'no write through an operand (public non-in-place operations x option specialisations)', 80)
+    import re
     ops = public_operations(ctx)
     n_cfg = 0
+    by_primitive = {}
     for label, fi in ops:
         ctx.functions.add(fi.qualname)
         bad = {}
@@ -173,13 +182,25 @@ def rule_no_write(ctx, E):
         if bad:
             for p, (cfg, wit) in sorted(bad.items()):
                 chain = wit[0].split('  ->  ')
-                prim = chain[-1]
-                ctx.violated('R1', fi, '%s mutates `%s`: %s' % (label, p, prim.split(': ', 1)[-1][:90]),
-                             'the non-in-place operation %s%s may write into its operand `%s`' % (
-                                 label, (' with ' + ', '.join('%s=%s' % (k, v[1]) for k, v in sorted(cfg.items()))) if cfg else '', p),
-                             witness=chain)
+                # blame the deepest step that is not itself part of the in-place API (the call that applies an in-place
+                # operation to operand-rooted state); the steps below it are the in-place API doing its job
+                k = len(chain) - 1
+                while k > 0 and chain[k].split(': ', 1)[0].replace('dimarray.core.', '').replace('dimarray.', '').split('.', 1)[-1] in INPLACE_STEPS:
+                    k -= 1
+                prim = chain[k]
+                pq, rest = prim.split(': ', 1)
+                stmt = re.sub(r'^\S+:\d+ ', '', rest)
+                g = by_primitive.setdefault((pq, stmt), {'ops': [], 'chain': chain, 'where': rest.split(' ')[0]})
+                g['ops'].append('%s(%s)%s' % (label, p, (' [' + ', '.join('%s=%s' % (k, v[1]) for k, v in sorted(cfg.items())) + ']') if cfg else ''))
         else:
             ctx.holds('R1', label, sample={'function': fi.qualname, 'configs': len(configs(fi))})
+    # one finding per primitive write (the violating construct), listing the public operations that reach it
+    for (pq, stmt), g in sorted(by_primitive.items()):
+        pf = ctx.P.functions.get(pq)
+        ops_txt = ', '.join(g['ops'][:8]) + (' ... (%d in all)' % len(g['ops']) if len(g['ops']) > 8 else '')
+        f = ctx.violated('R1', pf if pf is not None else pq, stmt,
+                         'in-place write `%s` (%s) is reached from non-in-place operation(s) through an access path rooted at an operand: %s' % (stmt, g['where'], ops_txt),
+                         witness=g['chain'])
     ctx.info('R1: %d public operations, %d option specialisations; %d function summaries evaluated; calls: %d resolved to repository code, %d external (frozen tables), '
              '%d unknown callables (assumed pure)' % (len(ops), n_cfg, E.evaluated, E.calls_resolved, E.calls_external, E.calls_unknown))
     for (q, p), why in effects.IGNORED_WRITES.items():
